@@ -720,13 +720,14 @@ class WSGIApp:
         return self._get_obj_ts(url_args["concept_id"], model.ConceptDescription)
 
     def handle_request(self, request: Request):
-        map_adapter: MapAdapter = self.url_map.bind_to_environ(request.environ)
         try:
             response_t = get_response_type(request)
         except werkzeug.exceptions.NotAcceptable as e:
             return e
 
         try:
+            # binding raises BadHost (a BadRequest) for a Host header that is no valid host name
+            map_adapter: MapAdapter = self.url_map.bind_to_environ(request.environ)
             endpoint, values = map_adapter.match()
             return endpoint(request, values, response_t=response_t, map_adapter=map_adapter)
 
